@@ -931,7 +931,7 @@ class RunCrateProvenanceManager(ProvenanceManager, ABC):
                 f.write(self._create_preview(metadata).encode("utf-8"))
             for src, dst in self.files_map.items():
                 if os.path.exists(src):
-                    if dst not in archive.namelist():
+                    if dst not in (n.rstrip("/") for n in archive.namelist()):
                         archive.write(src, dst)
                 else:
                     logger.warning(f"File {src} does not exist.")
